@@ -46,6 +46,10 @@ def ctor (L : Ledger) : Ledger := { L with ctors := L.ctors + 1 }
 def dtor (L : Ledger) : Ledger := { L with dtors := L.dtors + 1 }
 end Ledger
 
+/-- the value-initialisation loop `for i in old … n-1: buffer[i] = T{}` on a block / fixed buffer `cells` -/
+def initRange (zero : α) (cells : List (Cell α)) (old n : Nat) : List (Cell α) :=
+  if old < n then cells.take old ++ List.replicate (n - old) (some zero) ++ cells.drop n else cells
+
 /-- operation alphabet on numbered object slots -/
 inductive Op (α : Type) where
   | ctor (s : Nat)
